@@ -343,6 +343,32 @@ def r3_early_returns(ck, P):
                                 work_.append(y_.a[0]); continue
                             work_.extend(q for q in y_.a if q and q[0] in ('v', 'a'))
                         noneq.append(br)
+                # a memcmp that stands for 'the blocks are equal' compares the whole block: its length is the element count times the element size
+                partial = None
+                for br, succ in conds:
+                    if br.op != 'br' or not br.a:
+                        continue
+                    cc_, pp_, oo_ = f.cond(br.a[0])
+                    if cc_ is None or cc_.op != 'icmp' or pp_ not in ('eq', 'ne') or (pp_ == 'eq') != (br.d['succ'][0] == succ):
+                        continue
+                    for o_ in oo_ or []:
+                        y_ = f.v(f.strip_casts(o_)) if o_[0] == 'v' else None
+                        if y_ is None or y_.op != 'call' or y_.callee != 'memcmp' or len(y_.a) < 3:
+                            continue
+                        esz = None
+                        for a_ in y_.a[:2]:
+                            q_ = f.strip_casts(a_)
+                            if q_[0] == 'a':
+                                esz = {'i8*': 1, 'i16*': 2, 'i32*': 4, 'i64*': 8, 'float*': 4, 'double*': 8}.get(f.params[q_[1]][1])
+                        if not esz or esz == 1:
+                            continue
+                        l_ = f.v(f.strip_casts(y_.a[2])) if y_.a[2][0] == 'v' else None
+                        scaled = l_ is not None and ((l_.op == 'mul' and any(a_[0] == 'c' and int(a_[1]) == esz for a_ in l_.a)) or (l_.op == 'shl' and l_.a[1][0] == 'c' and (1 << int(l_.a[1][1])) == esz))
+                        if y_.a[2][0] == 'c' or not scaled:
+                            partial = y_
+                if partial is not None:
+                    ck.violation(R, f.name, 'early return on a partial comparison', '%s returns early when memcmp finds the new block equal to the stored one, but the length it compares (%s) is not the element count times the element size: only a prefix of the parameters is compared, and a block that differs further on is silently dropped' % (f.name, partial.loc()), partial.loc())
+                    continue
                 if eq:
                     missing = {(k, fl) for k, fl in S if (k, fl) not in eq and k in {q for q, _ in S}}
                     # mode fields the update sets to a constant (have_clip_region = TRUE ...) must already hold it when the update is skipped
